@@ -346,6 +346,12 @@ class Tracer:
                 ee = apply_env(e, full); ee['fn'] = f['key']; ee['fname'] = f['nname']; ee['depth'] = d
                 if ee.k == 'decl':
                     ee['var'] = full.get('local:' + e['var'], 'local:' + e['var'])
+                elif not e.get('field') and ee.k in ('call', 'read', 'write') and (e.get('recv') or e.get('path') or '').startswith('local:'):
+                    fc = f.setdefault('_aliasfield', {})
+                    if e['id'] not in fc:
+                        fc[e['id']] = efield(f, e)
+                    if fc[e['id']] and not fc[e['id']].startswith('?'):
+                        ee['field'] = fc[e['id']]        # access through a local reference/pointer alias of a member
                 if self.exc_edges and e.get('try') is not None and self.exc_edges(ee):
                     for s in seqs:
                         if not (s and s[-1].k == 'abort'):
@@ -414,6 +420,12 @@ class Tracer:
                         lastleave = next((x for x in reversed(sq) if x.k == 'leave' and x.get('depth') == d and x.ev.id == cev), None) if cev is not None else None
                         if lastleave is not None and lastleave.ret is not None and bool(lastleave.ret) != val and not any(x.k in ('enter',) and x.get('depth') == d and x.ev.id == cev for x in sq[sq.index(lastleave) + 1:]):
                             continue      # infeasible: the inlined callee returned a constant
+                        if lastleave is not None and lastleave.ret is None:
+                            # a branch on the result of an expanded helper is a branch on the expression the helper returned on this path
+                            k_ = sq.index(lastleave)
+                            rv = next((x for x in reversed(sq[:k_]) if x.k == 'return' and x.get('depth') == d + 1), None)
+                            if rv is not None and rv.get('path') and rv.get('ret_ev') is not None:
+                                br['path'] = rv['path']; br['rcond_ev'] = rv['ret_ev']; br['rcond_fn'] = rv.get('fn'); br['rcond_depth'] = d + 1
                         item = [br]
                     elif cond is not None and len(succ) > 2:
                         lab = blocks[s].get('label') or {}
@@ -570,7 +582,22 @@ def cond_event(tr, i):
     br = tr[i]
     if br.k != 'branch' or br.cond_ev is None:
         return None
+    if br.get('rcond_ev') is not None:
+        r = find_ev(tr, i, br['rcond_ev'], br['rcond_fn'], br['rcond_depth'])
+        if r is not None:
+            return r
     return find_ev(tr, i, br.cond_ev, br.fn, br.depth)
+
+
+def tests(br, ev):
+    """does branch item `br` test the result of event `ev` (directly, or through an expanded helper that returned it)?"""
+    if br.k != 'branch' or ev is None:
+        return False
+    if ev.get('fn') is None:        # an event taken from the function body, not from a trace: the analysed function's own frame
+        return br.cond_ev is not None and br.cond_ev == ev.get('id') and not br.get('depth')
+    if br.cond_ev is not None and br.cond_ev == ev.get('id') and br.get('fn') == ev.get('fn') and br.get('depth') == ev.get('depth'):
+        return True
+    return br.get('rcond_ev') is not None and br['rcond_ev'] == ev.get('id') and br['rcond_fn'] == ev.get('fn') and br['rcond_depth'] == ev.get('depth')
 
 
 # ---------------------------------------------------------------- simple per-function queries
